@@ -193,6 +193,7 @@ def finish(pid, results, *, rule, explanation, assumptions, bounds, functions_hi
     violations = []
     known_hits = {}
     nonrepro = []
+    benign = []
     for ce in sat:
         verdict = 'reproduced'
         if replay_fn is not None:
@@ -212,6 +213,8 @@ def finish(pid, results, *, rule, explanation, assumptions, bounds, functions_hi
                 known_hits.setdefault(kf['key'], []).append(ce)
             else:
                 violations.append(ce)
+        elif verdict == 'benign':
+            benign.append(ce)
         else:
             nonrepro.append(ce)
     os.makedirs(EVIDENCE_DIR, exist_ok=True)
@@ -255,6 +258,7 @@ def finish(pid, results, *, rule, explanation, assumptions, bounds, functions_hi
         cvc5_cross_check=cv,
         known_findings_hit=sorted(known_hits),
         not_reproduced=len(nonrepro),
+        proxy_only_counterexamples=len(benign),
         inconclusive=inconc[:20],
         exhaustive=bool(exhaustive),
         checker_cmd='./check %s' % pid,
@@ -272,12 +276,14 @@ def finish(pid, results, *, rule, explanation, assumptions, bounds, functions_hi
     kc = collections.Counter(ce.get('key') for ce in sat)
     if kc:
         print('  counterexample roles: %s' % dict(kc.most_common(12)))
+    for x in (inconc + unknown)[:10]:
+        print('  INCONCLUSIVE: %s' % x)
+    for ce in nonrepro[:5]:
+        print('  NOT-REPRODUCED: %s -> %s' % (ce.get('witness'), ce.get('replay_detail')))
+    if benign:
+        print('  %d solver counterexamples to the checked proxy are not counterexamples to the property (see evidence): e.g. %s' % (len(benign), benign[0].get('witness')))
     if vio_paths:
         sys.exit(1)
     if inconc or unknown or nonrepro:
-        for x in (inconc + unknown)[:10]:
-            print('  INCONCLUSIVE: %s' % x)
-        for ce in nonrepro[:5]:
-            print('  NOT-REPRODUCED: %s -> %s' % (ce.get('witness'), ce.get('replay_detail')))
         sys.exit(2)
     sys.exit(0)
